@@ -578,7 +578,7 @@ def r20_6(rep, M, rid):
         if isinstance(v, ast.Subscript) and isinstance(v.slice, ast.Tuple) and len(v.slice.elts) == 2 and isinstance(v.slice.elts[0], ast.Slice) \
                 and isinstance(v.slice.elts[1], ast.Constant) and isinstance(v.slice.elts[1].value, int):
             col[nm] = v.slice.elts[1].value
-    mats = [v for v in defs.values() if isinstance(v, ast.Call) and resolver(M, fq)(v.func) in ("numpy.array", "numpy.asarray") and v.args
+    mats = [v for v in ast.walk(fn) if isinstance(v, ast.Call) and resolver(M, fq)(v.func) in ("numpy.array", "numpy.asarray") and v.args
             and isinstance(v.args[0], ast.List) and len(v.args[0].elts) == 3 and all(isinstance(r, ast.List) and len(r.elts) == 3 for r in v.args[0].elts)]
     if not mats or len(col) < 3:
         raise AnalysisError("get_moments_of_inertia: 3x3 tensor literal / coordinate columns not recognised")
